@@ -319,3 +319,30 @@ def expand_rows(terms):
     for it in items:
         out.append(tuple(_replace(t, node, it) for t in terms))
     return out
+
+
+def array_map_elem(f, t, depth=0):
+    """`[a, b, c].map(closure)[k]` (an element of a mapped array literal, e.g. after `let [x, y, z] = [A, B, C].map(|t| get(t))`) is the
+    closure's value for element k: rewritten bottom-up wherever it occurs in `t`."""
+    from terms import simplify_proj
+    if depth > 30 or not isinstance(t, tuple) or not t:
+        return t
+    if t[0] == "proj" and t[2] and isinstance(t[2][0], str) and re.fullmatch(r"\[\d+\]", t[2][0]):
+        inner = t[1]
+        if inner[0] == "call" and re.search(r"<impl \[T; N\]>::map$", inner[1]) and len(inner[2]) == 2 and inner[2][0][0] == "agg" and inner[2][0][1] == "array":
+            k = int(t[2][0][1:-1])
+            items = inner[2][0][2]
+            if k < len(items):
+                ret, _pn = _closure_ret(f, inner[2][1], items[k])
+                if ret is not None:
+                    rest = tuple(t[2][1:])
+                    return simplify_proj(ret, rest) if rest else ret
+    out = []
+    for x in t:
+        if isinstance(x, tuple):
+            out.append(array_map_elem(f, x, depth + 1))
+        elif isinstance(x, list):
+            out.append([array_map_elem(f, y, depth + 1) if isinstance(y, tuple) else y for y in x])
+        else:
+            out.append(x)
+    return tuple(out)
